@@ -196,7 +196,13 @@ Section Logger.
     let '(e, text) := m in
     match list_is_suppressed pm (l_nomsg st) e use_global with
     | None => None
-    | Some (nomsg1, suppressed) =>
+    | Some (nomsg0, suppressed) =>
+      (* a worker (no global suppressions) that drops the finding lets the global
+         suppressions see it as well (fix 524f0f5) *)
+      match (if suppressed && negb use_global then list_is_suppressed pm nomsg0 e true
+             else Some (nomsg0, false)) with
+      | None => None
+      | Some (nomsg1, _) =>
         if is_nil text then Some (mkL nomsg1 (l_nofail st) (l_seen st) (l_exit st), false)
         else if mem_str text (l_seen st) then Some (mkL nomsg1 (l_nofail st) (l_seen st) (l_exit st), false)
         else
@@ -214,6 +220,7 @@ Section Logger.
                          Some (mkL nomsg2 nofail1 seen1 (l_exit st || negb nm), true)
                      end
             end
+      end
     end.
 
   Fixpoint logger_run (st : lstate) (ms : list (emsg * str)) : option (lstate * list bool) :=
